@@ -503,6 +503,47 @@ theorem restart_sound (evs : List PEvent) :
     (∀ u ∈ (Pseudo.run C g cap evs).tree.unc, Off (evs.flatMap (PEvent.offers C.sigLen)) u) :=
   ⟨(run_inv evs).els, (run_inv evs).db, (run_inv evs).unc⟩
 
+/- KNOWN FINDING (IdentityDatabase.insert_token:twin-row-ignored).  The full statement one wants after a restart is
+   closedness, "every element's parent is genesis or an ELEMENT":
+
+     theorem restart_closed (evs : List PEvent) :
+         ∀ e ∈ (Pseudo.run C g cap evs).tree.els,
+           e.prev = g ∨ hasId C (Pseudo.run C g cap evs).tree.els e.prev = true
+
+   It is FALSE for the code as it is, and for the model that mirrors it: the table is keyed by the pointer pair, not by
+   the signature, so of two validly signed tokens with the same pointers (re-signed twins) only the first gets a row,
+   and after a restart the children of the second twin are elements without their parent.  `restart_closed_fails`
+   below is the machine-checked witness.  What IS proved is `restart_sound` (every element and row is signed, sized and
+   connected to genesis through OFFERED tokens — weaker than "through contained tokens"), and closedness between
+   restarts (`gather_closed`).  Not proved: closedness after a restart under the hypothesis that the key never signs
+   the same pointer pair twice (true for deterministic signatures such as curve25519); the persistence scenarios check
+   it on the implementation. -/
+
+/-- two valid signatures: the bytes 1 and 3 -/
+def toyTwin : Crypto := ⟨fun x => [x.foldl (· + ·) 0], fun _ s => s == [1] || s == [3], 1⟩
+def kA : Token := ⟨[0], [10], [1], none⟩            -- root, id [11]
+def kT1 : Token := ⟨[11], [20], [1], none⟩          -- child of A, id [32]
+def kT2 : Token := ⟨[11], [20], [3], none⟩          -- its re-signed twin, id [34]
+def kC2 : Token := ⟨[34], [30], [1], none⟩          -- child of the twin
+def twinHistory : List PEvent := [.credential kA, .credential kT1, .credential kT2, .credential kC2, .restart]
+
+/-- the witness: all four tokens are elements before the restart; afterwards the twin's row is missing and its child
+    is an element whose parent is not contained -/
+theorem restart_closed_fails :
+    (Pseudo.run toyTwin [0] 100 twinHistory).tree.els = [kA, kT1, kC2] ∧
+    ¬ (∀ e ∈ (Pseudo.run toyTwin [0] 100 twinHistory).tree.els,
+        e.prev = [0] ∨ hasId toyTwin (Pseudo.run toyTwin [0] 100 twinHistory).tree.els e.prev = true) := by
+  have h : (Pseudo.run toyTwin [0] 100 twinHistory).tree.els = [kA, kT1, kC2] := by
+    simp [Pseudo.run, twinHistory, Pseudo.step, Pseudo.addCredential, Pseudo.storeNew, Pseudo.restart, Pseudo.fresh,
+      Tree.empty, gatherKind, Kind.isSome, gather, drain, dbInsert, dictSet, toyTwin, kA, kT1, kT2, kC2, Token.ok,
+      Token.sized, Token.valid, Token.id, Token.signed, hasId, kidsOf, othersOf, Token.ofDatabaseTuple,
+      Token.ofHash]
+  refine ⟨h, ?_⟩
+  rw [h]
+  intro hall
+  have := hall kC2 (by simp)
+  simp [kC2, kA, kT1, hasId, toyTwin, Token.id, Token.signed] at this
+
 /-- `Token.__init__`: exactly one of content / content_hash is accepted (both, or neither, is an error), and whatever
     it builds carries no content or content that hashes to its pointer -/
 theorem init_bound (prev sig : Bytes) (content chash : Option Bytes) :
